@@ -80,9 +80,11 @@ func (m *deploymentMonitor) run() {
 	)
 
 	tickch := m.scheduleRetry()
+	tickch = m.vtTimer(tickch)
 
 loop:
 	for {
+		m.vt("loop", "attempts", m.attempts, "tick", tickch != nil, "run", runch != nil, "close", closech != nil)
 		select {
 		case err := <-m.lc.ShutdownRequest():
 			m.log.Debug("shutting down")
@@ -109,6 +111,7 @@ loop:
 				// healthy
 				m.attempts = 0
 				tickch = m.scheduleHealthcheck()
+				tickch = m.vtTimer(tickch)
 				m.publishStatus(event.ClusterDeploymentDeployed)
 				deploymentHealthCheckCounter.WithLabelValues("up").Inc()
 				break
@@ -121,6 +124,7 @@ loop:
 			if m.attempts <= monitorMaxRetries {
 				// unhealthy.  retry
 				tickch = m.scheduleRetry()
+				tickch = m.vtTimer(tickch)
 				break
 			}
 
@@ -132,6 +136,7 @@ loop:
 			closech = nil
 		}
 	}
+	m.vt("exit", "attempts", m.attempts, "tick", tickch != nil, "run", runch != nil, "close", closech != nil)
 	cancel()
 
 	if runch != nil {
@@ -147,6 +152,7 @@ loop:
 	// TODO
 	// Check that we got here
 	m.log.Debug("shutdown complete")
+	m.vt("stopped")
 }
 
 func (m *deploymentMonitor) runCheck(ctx context.Context) <-chan runner.Result {
